@@ -42,6 +42,20 @@ RECURSIVE SumN(_, _)
 SumN(f, S) == IF S = {} THEN 0 ELSE LET x == CHOOSE y \in S : TRUE IN f[x] + SumN(f, S \ {x})
 
 EmptyF == [x \in {} |-> 0]
+MaxP(a, b) == IF a[1] > b[1] \/ (a[1] = b[1] /\ a[2] >= b[2]) THEN a ELSE b      \* the low half stays below the base
+RECURSIVE MaxF(_, _)
+MaxF(f, S) == IF S = {} THEN Z ELSE LET x == CHOOSE y \in S : TRUE IN MaxP(f[x], MaxF(f, S \ {x}))
+(* End-to-end latency: every stub reports, per topic and per channel, message_count samples whose 99th percentile is
+   the record's depth and whose median is its backend_depth.  One node's row shows exactly that; an aggregate shows
+   the summed sample counts and, per quantile, the largest of the nodes' values.                                     *)
+E2eRow(r) == [count |-> r.message_count,
+              p99 |-> [count |-> r.message_count, max |-> r.depth],
+              p50 |-> [count |-> r.message_count, max |-> r.backend_depth]]
+E2eSum(rows, S) ==
+  LET n == SumF([x \in S |-> rows[x].message_count], S) IN
+  [count |-> n,
+   p99 |-> [count |-> n, max |-> MaxF([x \in S |-> rows[x].depth], S)],
+   p50 |-> [count |-> n, max |-> MaxF([x \in S |-> rows[x].backend_depth], S)]]
 
 ----------------------------------------------------------------------------
 (* Cluster contents.                                                       *)
@@ -182,6 +196,7 @@ ChanSum(cl, S, t, c) ==      \* per-field sums of channel c of topic t over the 
    message_count |-> f("message_count"),
    client_count |-> SumN([n \in H |-> Cardinality(cl.nsqd[n].topics[t].channels[c].clients)], H),
    paused |-> \E n \in H : cl.nsqd[n].topics[t].channels[c].paused,
+   e2e |-> E2eSum([n \in H |-> cl.nsqd[n].topics[t].channels[c]], H),
    nodes |-> H]
 
 TopicView(cl, t) ==
@@ -198,9 +213,11 @@ TopicView(cl, t) ==
             [depth |-> f("depth"), backend_depth |-> f("backend_depth"),
              memory_depth |-> Minus(f("depth"), f("backend_depth")), message_count |-> f("message_count"),
              paused |-> \E n \in S : cl.nsqd[n].topics[t].paused,
+             e2e |-> E2eSum([n \in S |-> cl.nsqd[n].topics[t]], S),
              channels |-> [c \in chans |-> ChanSum(cl, S, t, c)],
              nodes |-> [n \in S |-> [depth |-> cl.nsqd[n].topics[t].depth,
-                                     message_count |-> cl.nsqd[n].topics[t].message_count]]])
+                                     message_count |-> cl.nsqd[n].topics[t].message_count,
+                                     e2e |-> E2eRow(cl.nsqd[n].topics[t])]]])
 
 (* ---- /api/topics/:t/:c ------------------------------------------------ *)
 ChannelView(cl, t, c) ==
@@ -216,7 +233,8 @@ ChannelView(cl, t, c) ==
             [sum |-> ChanSum(cl, H, t, c),
              clients |-> UNION {cl.nsqd[n].topics[t].channels[c].clients : n \in H},
              nodes |-> [n \in H |-> [depth |-> cl.nsqd[n].topics[t].channels[c].depth,
-                                     message_count |-> cl.nsqd[n].topics[t].channels[c].message_count]]])
+                                     message_count |-> cl.nsqd[n].topics[t].channels[c].message_count,
+                                     e2e |-> E2eRow(cl.nsqd[n].topics[t].channels[c])]]])
 
 (* ---- /api/nodes ------------------------------------------------------- *)
 \* nsqadmin keeps the record of whichever lookupd answered first: any reporting lookupd's list is acceptable
